@@ -539,6 +539,7 @@ static std::vector<Scenario> scenariosC04(bool thorough, const vp::Args& A) {
         s.enhanced = enh;
         s.busLostRetries = retr ? 0 : 2;
         s.faults = true;
+        s.staleArb = true;
         s.drainAtEnd = true;
         s.chunking = false;
         s.alphabet = Bytes{0x00, 0xFF, 0xAA, 0x55};
